@@ -10,29 +10,37 @@ import vlib, semlib
 from vlib import log
 
 
-def databases(name, rnd, tier):
+def databases(name, rnd, tier, arrangement="shuffled"):
     if name == "stress_lat":
         k = 1000
+        # "blocked": all keys with value 0, then all keys with value 1, ..: the workers, each taking a contiguous part of the
+        # vector, reach the same key at about the same time
         src = [[key, v] for v in range(8) for key in range(k)]
-        rnd.shuffle(src)
+        if arrangement == "shuffled":
+            rnd.shuffle(src)
         link = [[rnd.randrange(k), rnd.randrange(k)] for _ in range(150)]
         return {"src": src, "link": link}
     if name == "stress_rel":
         n = 700
         edge = [list(t) for t in sorted({(rnd.randrange(n), rnd.randrange(n)) for _ in range(4000)})]
         rnd.shuffle(edge)
-        return {"edge": edge}
+        via = [list(t) for t in sorted({(rnd.randrange(n), rnd.randrange(n)) for _ in range(300)})]
+        return {"edge": edge, "via": via}
     raise vlib.ToolError(f"no stress database generator for {name}")
 
 
-def run_stress(out, pid, tier, seed, progs_all, mods, bindir, work):
-    """Adds violations / evidence to `out`. Returns the number of rounds executed."""
+def run_stress(out, pid, tier, seed, progs_all, mods, bindir, work, pool_pairs=((0, 4), (0, 8))):
+    """Adds violations / evidence to `out`. Returns the number of rounds executed.
+    pool_pairs: (size of the pool in which the program value is constructed [0 = none], size of the pool that runs it)."""
     rnd = random.Random(seed * 7919 + 13)
     sel = [p for p in progs_all if "stress" in p["tags"]]
     if not sel:
         return 0
     pidx = {p["name"]: i + 1 for i, p in enumerate(sel)}
-    items = [{"id": i + 1, "pi": pidx[p["name"]], "inputs": databases(p["name"], rnd, tier), "prog": p} for i, p in enumerate(sel)]
+    items = []
+    for p in sel:
+        for arr in (("shuffled", "blocked") if p["name"] == "stress_lat" else ("shuffled",)):
+            items.append({"id": len(items) + 1, "pi": pidx[p["name"]], "inputs": databases(p["name"], rnd, tier, arr), "prog": p, "arr": arr})
     lms, evres = semlib.eval_least_models(sel, items, os.path.join(work, "stress"), chunks=len(items), timeout=900)
     for r in evres:
         out.add_tlc(r, "SemEval (least model of a stress database)")
@@ -42,11 +50,11 @@ def run_stress(out, pid, tier, seed, progs_all, mods, bindir, work):
     for it in items:
         p = it["prog"]
         for v in [v for v in ("par", "pari") if (p["name"], v) in mods]:
-            for pool in (4, 8):
+            for cpool, pool in pool_pairs:
                 for k in range(rounds):
                     cid += 1
                     ops = semlib.input_ops(p, it["inputs"]) + [{"op": "run", "pool": pool}]
-                    case = semlib.make_case(cid, p, pidx[p["name"]], v, ops, seed=0)
+                    case = semlib.make_case(cid, p, pidx[p["name"]], v, ops, seed=0, cpool=cpool)
                     case["nohooks"] = True
                     cases.append(case)
                     meta[cid] = (it, case)
@@ -61,7 +69,7 @@ def run_stress(out, pid, tier, seed, progs_all, mods, bindir, work):
         small = dict(case)
         out.violation({"property": pid, "engine": "stress", "kind": kind, "detail": detail, "case": small,
                        "inputs": {r: f"{len(v)} rows (seeded, see case.ops)" for r, v in it["inputs"].items()},
-                       "summary": f"{case['prog']}/{case['var']} on a stress database, pool {case['ops'][-1].get('pool')}: {kind}: {json.dumps(detail)[:300]}"})
+                       "summary": f"{case['prog']}/{case['var']} on a stress database ({it['arr']}), constructed in pool {case.get('cpool', 0)}, run in pool {case['ops'][-1].get('pool')}: {kind}: {json.dumps(detail)[:300]}"})
 
     for crate, rc, tail, culprit, others in crashed:
         if culprit in meta:
@@ -104,6 +112,7 @@ def run_stress(out, pid, tier, seed, progs_all, mods, bindir, work):
                                                 "extra": [json.loads(x) for x in sorted(got - want)[:5]],
                                                 "n_missing": len(want - got), "n_extra": len(got - want)})
     out.extra["stress_rounds"] = n
-    out.extra["stress_databases"] = {it["prog"]["name"]: {r: len(v) for r, v in it["inputs"].items()} for it in items}
+    out.extra["stress_databases"] = {it["prog"]["name"] + "/" + it["arr"]: {r: len(v) for r, v in it["inputs"].items()} for it in items}
+    out.extra["stress_pool_pairs"] = [list(x) for x in pool_pairs]
     log(f"[stress] {pid}: {n} rounds on {len(items)} databases")
     return n
